@@ -423,6 +423,20 @@ class CatchExceptionDatasetC(ClassContract):
     )
 
 
+def _catch_refusal():
+    # key iteration over an input without keys: refused with the library's own signal (so that from_dataset / new(ds) fall
+    # back to a key-less snapshot); case split as for slice / cache / prefetch (keys exist but are refused: F28)
+    from contracts.stages import _split_refusal
+    oyr, por = items_refused_clauses(lambda S: None)
+    v = Variant('items-refused', params={'with_key': 'true'}, generator=True, on_yield=lambda S, value: [('I-items:nothing-is-yielded-before-the-refusal', smt.F)],
+                post=por, requires=lambda S: z3.And(smt.IDX(F(S)['input_dataset'].t), z3.Not(smt.KEYS(F(S)['input_dataset'].t))),
+                loops={'0': _catch_inv(True)}, props=('C03', 'C01', 'C10'), hooks=_catch_hooks())
+    return _split_refusal([v], lambda S: F(S)['input_dataset'].t)
+
+
+CatchExceptionDatasetC.methods['__iter__'] = CatchExceptionDatasetC.methods['__iter__'] + _catch_refusal()
+
+
 CONTRACTS = [BatchDatasetC(), UnbatchDatasetC(), FilterDatasetC(), CatchExceptionDatasetC()]
 
 from contracts.copying import copy_variants  # noqa
